@@ -393,19 +393,26 @@ _worig = {}
 
 
 def _wobserve(w):
-    comps = {}
-    for e, row in w._entities.items():
-        comps[W.ent(e)] = sorted(W.comp(c) for c in row.values())
+    """Observation through the public API only (private attributes are used for the queue length alone, optional)."""
     all_e = sorted(set(W.ents.values()))
-    is_h = sorted([n for n, o in W.cobj.items() if hasattr(o, '__events__') and _orig_is_handler(w, o)] +
-                  [n for n, o in W.pobj.items() if hasattr(o, '__events__') and _orig_is_handler(w, o)])
+    comps = {}
+    for me in all_e:
+        cs = w.get_components(_real(me))
+        if cs:
+            comps[me] = sorted(W.comp(c) for c in cs)
+    is_h = sorted([n for n, o in W.cobj.items() if hasattr(o, '__events__') and w.is_handler(o)] +
+                  [n for n, o in W.pobj.items() if hasattr(o, '__events__') and w.is_handler(o)])
+    try:
+        qlen = len(w._event_queue)
+    except Exception:
+        qlen = -1
     return {'comps': [[e, comps.get(e, [])] for e in all_e],
-            'exists': [[e, (e in comps) and (_real(e) not in w._dead_entities)] for e in all_e],
-            'entities': sorted(e for e in comps if _real(e) not in w._dead_entities),
-            'is_handler': is_h, 'enabled': w._dispatch_enabled,
-            'processors': [W.proc(p) for p in w._sorted_processors],
+            'exists': [[e, bool(w.entity_exists(_real(e)))] for e in all_e],
+            'entities': sorted(W.ent(e) for e in w.entities),
+            'is_handler': is_h, 'enabled': w.dispatch_enabled,
+            'processors': [W.proc(p) for p in w.processors],
             'pprio': [[n, o.priority] for n, o in sorted(W.pobj.items())],
-            'qlen': len(w._event_queue)}
+            'qlen': qlen}
 
 
 def _real(me):
@@ -413,14 +420,6 @@ def _real(me):
         if m == me:
             return r
     return me
-
-
-def _orig_is_handler(w, o):
-    import weakref as _w
-    try:
-        return _w.ref(o) in w._handlers
-    except TypeError:
-        return False
 
 
 def _wcall(op, a1, a2, a3, w, call, ret_of=None):
@@ -481,8 +480,9 @@ def install_world():
     def add_component(self, entity, component):
         if not on(self):
             return _worig['add_component'](self, entity, component)
-        for e2, row in self._entities.items():
-            if e2 != entity and any(c is component for c in row.values()):
+        for me2 in set(W.ents.values()):
+            e2 = _real(me2)
+            if e2 != entity and any(c is component for c in self.get_components(e2)):
                 W.bad('one component instance attached to two entities (outside the specification\'s domain)')
         return _wcall('AddComponent', W.ent(entity), W.comp(component), '-', self, lambda: _worig['add_component'](self, entity, component))
 
